@@ -4,6 +4,7 @@ CONSTANTS
   MaxWrites = 3
   MaxSteps = 6
   WithFatalKeep = TRUE
+  WithEof = TRUE
   Variant = "requeue"
 INVARIANT Conforms
 CHECK_DEADLOCK FALSE
